@@ -70,6 +70,59 @@ def mon_sanity(tr):
                 out.append(("panic", "panic in op %d `%s`: %s" % (i, op[:60], l[:160])))
             elif l.startswith("hang") or l == "spin" or l.startswith("CRASH"):
                 out.append(("hang:" + op.split()[0], "op %d `%s` never returned / busy loop: %s" % (i, op[:60], l[:80])))
+    return out + mon_records(tr)
+
+
+def mon_records(tr):
+    """what is stored and sent under an identifier belongs to that identifier: a record under an at-least-once key is the QoS 1
+    PUBLISH with that identifier, under an exactly-once key the QoS 2 PUBLISH or the PUBREL with it, under a marker key the PUBREC;
+    a PUBLISH on the wire carries an identifier from the space of its level; the PUBLISH records of accepted publishes follow each
+    other without a gap (the identifier is the acceptance count)"""
+    out = []
+    last = {1: None, 2: None}
+    w = Wire()
+    for i, (op, lines) in enumerate(tr):
+        f = op.split()
+        if f and f[0] in ("init", "vinit", "adopt", "initx", "damage", "wrapstore"):
+            last = {1: None, 2: None}
+        for l in lines:
+            p = l.split()
+            if l.startswith("ev save ") and len(p) == 5 and ":" not in p[3]:
+                try:
+                    key, pk = int(p[2], 16), unhex(p[3])
+                except ValueError:
+                    continue
+                if key == 0 or not pk:
+                    continue
+                t, qos = pk[0] >> 4, (pk[0] >> 1) & 3
+                pid = None
+                if t == 3 and len(pk) > 4:
+                    j = 1
+                    while j < len(pk) and pk[j] >= 0x80:
+                        j += 1
+                    body = pk[j + 1:]
+                    tl = (body[0] << 8) | body[1] if len(body) >= 2 else 0
+                    if qos and len(body) >= 4 + tl:
+                        pid = (body[2 + tl] << 8) | body[3 + tl]
+                elif t in (5, 6) and len(pk) == 4:
+                    pid = (pk[2] << 8) | pk[3]
+                ok = (0x8000 <= key < 0xc000 and t == 3 and qos == 1 and pid == key) or \
+                     (0xc000 <= key < 0x10000 and ((t == 3 and qos == 2) or t == 6) and pid == key) or \
+                     (key >= 0x10000 and t == 5 and pid == key & 0xffff)
+                if not ok:
+                    out.append(("records:key-mismatch", "the record stored under key %x is `%s`: not the packet that belongs to this key" % (key, p[3][:40])))
+                lvl = 1 if 0x8000 <= key < 0xc000 else (2 if 0xc000 <= key < 0x10000 else 0)
+                if lvl and t == 3:
+                    prev = last[lvl]
+                    if prev is not None and key != (prev & 0xc000) | ((prev + 1) & 0x3fff):
+                        out.append(("records:id-gap", "accepted publishes of level %d got the identifiers %04x and then %04x: the identifier does not follow the acceptance count" % (lvl, prev, key)))
+                    last[lvl] = key
+            elif l.startswith("ev w "):
+                for d in w.add(i, p[2], unhex(p[3])):
+                    if d["name"] == "publish" and d.get("qos") in (1, 2) and "id" in d:
+                        lo = 0x8000 if d["qos"] == 1 else 0xc000
+                        if not lo <= d["id"] < lo + 0x4000:
+                            out.append(("records:wire-level-space", "PUBLISH with QoS %d carries the identifier %04x, outside the space of its level" % (d["qos"], d["id"])))
     return out
 
 
